@@ -23,40 +23,41 @@ def main():
             failures.append(f'gen_tables: {e!r}')
         srcs = common.write_coqproject()
         rc, log = common.make_targets([s + 'o' for s in srcs])
-        if rc:
-            failures.append('coq build: ' + log[-3000:])
+        missing = [s for s in srcs if not os.path.exists(os.path.join(common.COQ, s + 'o'))]
         props = sorted(d for d in os.listdir(common.COQ) if os.path.isdir(os.path.join(common.COQ, d))
                        and os.path.exists(os.path.join(common.COQ, d, 'Extract.v')))
         from concurrent.futures import ThreadPoolExecutor
+        binfail = {}
         with ThreadPoolExecutor(8) as ex:
             for p, (ok, blog) in zip(props, ex.map(common.build_binary, props)):
                 if not ok:
-                    failures.append(f'{p}: {blog[-1500:]}')
-    print(f'setup: {len(srcs)} Coq files, {len(props)} model runners, {time.time() - t0:.0f}s')
-    # a failure only counts when it concerns a property claimed in MANIFEST.json (or Base);
-    # work in progress for an unclaimed property must not break the claimed checks
+                    binfail[p] = blog[-1500:]
+    print(f'setup: {len(srcs)} Coq files ({len(missing)} not compiled), {len(props)} model runners '
+          f'({len(binfail)} failed), {time.time() - t0:.0f}s')
+    # a failure only counts when it concerns Base or a property claimed in MANIFEST.json; work in
+    # progress for an unclaimed property must not break the claimed checks
     import json
+    import re
     try:
         claimed = {c['property_id'] for c in json.load(open(os.path.join(common.VERIF, 'MANIFEST.json')))['checks']}
     except Exception:
         claimed = set()
-    fatal = []
-    for f in failures:
-        hit = [p for p in claimed if (p + '/') in f or f.startswith(p + ':')] or (['Base'] if 'Base/' in f else [])
-        unclaimed_only = not hit and any((d + '/') in f for d in props if d not in claimed)
-        print('SETUP-FAILURE' if not unclaimed_only else 'SETUP-WARNING (unclaimed property)', f[:3000])
-        if not unclaimed_only:
-            fatal.append(f)
-    # every claimed property must have its .vo files and runner
-    for pid in sorted(claimed):
-        d = os.path.join(common.COQ, pid)
-        if not os.path.isdir(d):
-            fatal.append(f'{pid}: no coq directory')
-            continue
-        for v in common.prop_vfiles(pid):
-            if v != 'Extract.v' and not os.path.exists(os.path.join(d, v + 'o')):
-                fatal.append(f'{pid}/{v} not compiled')
-                print('SETUP-FAILURE', f'{pid}/{v} not compiled')
+    fatal = list(failures)
+    for m in missing:
+        d = m.split('/')[0]
+        err = re.search(r'File "\./%s".*?(?=\nmake|\Z)' % re.escape(m), log, flags=re.S)
+        msg = f'{m} not compiled: ' + (err.group(0)[:600] if err else '(dependency failed)')
+        if d == 'Base' or d in claimed:
+            print('SETUP-FAILURE', msg)
+            fatal.append(msg)
+        else:
+            print('SETUP-WARNING (unclaimed property)', msg)
+    for p, blog in binfail.items():
+        if p in claimed:
+            print('SETUP-FAILURE', p, blog)
+            fatal.append(p)
+        else:
+            print('SETUP-WARNING (unclaimed property)', p, blog[-300:])
     return 1 if fatal else 0
 
 
